@@ -212,4 +212,42 @@ WITNESSES = [
         ("        target_names_by_space = {}\n", "        target_names_by_space = {}\n        _block_symmetry_cache.clear()\n"),
         ("            tensor_sym = obj.symmetry()\n", "            tensor_sym = _block_symmetry(obj)\n"),
     ]),
+    # ---- power rule instead of the placeholder symbol (mirrors seeded/C14-7)
+    # n T^(n-1) multiplied into the contribution BEFORE the symmetrisation: the re-inserted power is permuted on its own
+    dict(id="c14-power-rule-before-symmetrisation", prop="C14", file=D, expect="R14d", edits=[
+        ("from sympy import Rational, diff, S\n", "from sympy import Rational, diff, S, Pow\n"),
+        ("            symmetrized_deriv_contrib = deriv_contrib.sympy * x**exponent\n            for perms, factor in tensor_sym.items():\n                symmetrized_deriv_contrib += (\n                    deriv_contrib.copy().permute(*perms).sympy *\n                    factor * x**exponent\n                )\n            # - compute the derivative with respect to x\n            symmetrized_deriv_contrib = diff(symmetrized_deriv_contrib, x)\n", ""),
+        ("            symmetrized_deriv_contrib = (\n                symmetrized_deriv_contrib.subs(x, obj.base)\n            )\n",
+         "            if exponent != 1:\n                deriv_contrib *= exponent * Pow(obj.base, exponent - 1)\n"
+         "            symmetrized_deriv_contrib = deriv_contrib.sympy\n"
+         "            for perms, factor in tensor_sym.items():\n"
+         "                symmetrized_deriv_contrib += (\n"
+         "                    deriv_contrib.copy().permute(*perms).sympy * factor\n                )\n"),
+    ]),
+    # the same power rule applied AFTER the symmetrisation of the remainder is the derivative
+    dict(id="c14-ok-power-rule-after-symmetrisation", prop="C14", file=D, expect=None, edits=[
+        ("from sympy import Rational, diff, S\n", "from sympy import Rational, diff, S, Pow\n"),
+        ("            symmetrized_deriv_contrib = deriv_contrib.sympy * x**exponent\n            for perms, factor in tensor_sym.items():\n                symmetrized_deriv_contrib += (\n                    deriv_contrib.copy().permute(*perms).sympy *\n                    factor * x**exponent\n                )\n            # - compute the derivative with respect to x\n            symmetrized_deriv_contrib = diff(symmetrized_deriv_contrib, x)\n",
+         "            symmetrized_deriv_contrib = deriv_contrib.sympy\n"
+         "            for perms, factor in tensor_sym.items():\n"
+         "                symmetrized_deriv_contrib += (\n"
+         "                    deriv_contrib.copy().permute(*perms).sympy * factor\n                )\n"),
+        ("            symmetrized_deriv_contrib = (\n                symmetrized_deriv_contrib.subs(x, obj.base)\n            )\n",
+         "            symmetrized_deriv_contrib = (\n"
+         "                symmetrized_deriv_contrib * exponent * Pow(obj.base, exponent - 1)\n            )\n"),
+    ]),
+    # the placeholder gets another name (variable and symbol)
+    dict(id="c14-ok-placeholder-renamed", prop="C14", file=D, expect=None, edits=[
+        ("    x = Index('x')\n", "    placeholder = Index('tensor_placeholder')\n"),
+        ("            symmetrized_deriv_contrib = deriv_contrib.sympy * x**exponent\n",
+         "            symmetrized_deriv_contrib = deriv_contrib.sympy * placeholder**exponent\n"),
+        ("                    factor * x**exponent\n", "                    factor * placeholder**exponent\n"),
+        ("            symmetrized_deriv_contrib = diff(symmetrized_deriv_contrib, x)\n",
+         "            symmetrized_deriv_contrib = diff(symmetrized_deriv_contrib, placeholder)\n"),
+        ("                symmetrized_deriv_contrib.subs(x, obj.base)\n", "                symmetrized_deriv_contrib.subs(placeholder, obj.base)\n"),
+    ]),
+    # a fresh placeholder for every occurrence
+    dict(id="c14-ok-placeholder-per-occurrence", prop="C14", file=D, expect=None, edits=[
+        ("            exponent = obj.exponent\n", "            exponent = obj.exponent\n            x = Index('y')\n"),
+    ]),
 ]
